@@ -15,7 +15,10 @@ from yaql.language import parser as yparser
 
 from vmon import hooks
 from vmon import yq
+from vmon import core
 from vmon.core import rng_for
+
+PARSE_CPU_BUDGET = 300      # seconds of CPU for one parse; the slowest input of the corpus needs about 15
 
 RULE = ('token sequences over the full token alphabet (operators of the engine table, brackets, '
         'mapping, $-variables, keywords, calls, numbers, three string styles, constants, __words, '
@@ -27,6 +30,7 @@ ASSUMPTIONS = [
     'termination is judged by a logical budget (ply Lexer.token calls <= len(text)+2); a wall-clock '
     'kill of a shard is inconclusive',
     'inputs are capped at 6000 characters for digit runs (NUMBER rule is quadratic)',
+    'a single parse that uses more than 300 s of CPU (20 times the slowest input of the corpus) counts as not terminating',
 ]
 REQUIRED = {'hook.token_calls': 100, 'outcome.statement': 10, 'outcome.YaqlGrammarException': 10,
             'outcome.YaqlLexicalException': 10, 'reach.Lexer.t_error': 5, 'reach.Parser.p_error': 5}
@@ -91,6 +95,9 @@ class Monitor:
         eng = eng or self.eng
         before = self.token_calls
         outcome = None
+        core.cpu_budget(PARSE_CPU_BUDGET, {'family': family, 'seconds': PARSE_CPU_BUDGET,
+                                           'what': 'parsing a text of %d characters starting %r' % (len(text), text[:60]),
+                                           'replay': {'text': text if len(text) <= 4000 else text[:4000], 'engine': engname}})
         try:
             eng(text)
             outcome = 'statement'
